@@ -368,6 +368,12 @@ SUFFIX_PROGRAMS = [
      [5, 't', 0.5, 6, '', 0.0, 0]),
     ('function-locals', 'PRINT zf%(2); zf%(3)\nEND\nFUNCTION zf% (k%)\nSTATIC t%, t&\nt% = t% + k%: t& = t& + 1000 * k%\nu% = t%: u& = t&\nzf% = u% + u& \\ 1000\nEND FUNCTION\n',
      [4, 10]),
+    # (needs -g: RESUME NEXT) a module-level handler entered from two calls deep assigns the main program's variables and no one else's
+    ('g:handler-two-calls-deep', 'ON ERROR GOTO zh\nmv& = 1001: mc% = 1\nouter\nPRINT mv&; mc%\nEND\nzh: mv& = mv& + 1: mc% = mc% + 1\nRESUME NEXT\n'
+     'SUB outer\noa& = 111: ob& = 222: os$ = "outer"\ninner\nPRINT oa&; ob&; os$\nEND SUB\nSUB inner\nia& = 5: x% = 1 \\ zz%\nPRINT ia&\nEND SUB\n',
+     [5, 111, 222, 'outer', 1002, 2]),
+    ('g:handler-in-recursion', 'ON ERROR GOTO zh\nmv& = 7\nrec 3\nPRINT mv&\nEND\nzh: mv& = mv& * 10\nRESUME NEXT\n'
+     'SUB rec (n%)\nl& = n% * 100\nIF n% > 1 THEN rec n% - 1 ELSE x% = 1 \\ zz%\nPRINT l&\nEND SUB\n', [100, 200, 300, 70]),
 ]
 
 
@@ -378,6 +384,8 @@ def run_suffix(case):
     shapes = []
     for name, text, exp in SUFFIX_PROGRAMS:
         for cfg in rt.CONFIGS6:
+            if name.startswith('g:') and not cfg[1]:
+                continue
             c = rt.compile_src(text, cfg[0], cfg[1])
             cn = rt.cfg_name(cfg)
             if c.status != 'ok':
@@ -391,7 +399,7 @@ def run_suffix(case):
             st['reads_compared'] += len(got)
             shapes.append(f'suffix|{name}|{cn}')
             if got != exp or r.outcome != ['halt']:
-                viol.append(V(f'C04:suffix-names:{name}', f'{cn}: variables that differ only in their type suffix ({name}): read {got}, '
+                viol.append(V(f'C04:directed:{name}', f'{cn}: directed storage program ({name}): read {got}, '
                               f'the source says {exp}; run ended {r.outcome}', text=text))
     return {'viol': viol, 'stats': st, 'shape': shapes, 'nontrivial': True, 'sample': {'source': SUFFIX_PROGRAMS[1][1]}}
 
